@@ -87,7 +87,8 @@ impl Family for C19Family {
                 locals.push(Local { phase: i, delay_ms: r.below(50) as u64, nbytes: 10, expect_served: false });
             }
         }
-        (serde_json::to_value(C19Plan { script, max_count, max_iv, hs_to_s, ch_to_s, locals, keepalive_ms: [0, 0] }).expect("plan"), seed)
+        let udp_down = if r.chance(1, 4) { *r.pick(&[10usize, 64, 65, 80, 200]) } else { 0 };
+        (serde_json::to_value(C19Plan { script, max_count, max_iv, hs_to_s, ch_to_s, locals, keepalive_ms: [0, 0], udp_down }).expect("plan"), seed)
     }
     fn records_decisions(&self) -> bool {
         false
@@ -160,7 +161,7 @@ impl Family for C19KaFamily {
                 _ => {}
             }
         }
-        (serde_json::to_value(C19Plan { script, max_count, max_iv, hs_to_s, ch_to_s, locals, keepalive_ms: [iv, t_req] }).expect("plan"), seed)
+        (serde_json::to_value(C19Plan { script, max_count, max_iv, hs_to_s, ch_to_s, locals, keepalive_ms: [iv, t_req], udp_down: 0 }).expect("plan"), seed)
     }
     fn records_decisions(&self) -> bool {
         false
@@ -265,12 +266,20 @@ impl Family for C01Family {
             }
         }
         let udp = (0..n_udp)
-            .map(|_| UdpClient { via_socks: r.chance(1, 2), target: r.below(n_udp_targets), start_ms: r.below(200) as u64, sizes: (0..(1 + r.below(4))).map(|_| *r.pick(&[0usize, 1, 2, 3, 4, 13, 100, 1400, 9000])).collect(), gap_ms: if r.chance(1, 6) { *r.pick(&[10_500u64, 15_000, 19_500, 25_000]) } else { *r.pick(&[0u64, 10, 300, 900]) }, hops: (0..4).map(|_| r.below(2)).collect(), junk: (0..4).map(|_| if r.chance(1, 4) { 1 + r.below(4) as u8 } else { 0 }).collect(), v6: { let mixed = r.chance(1, 4); (0..4).map(|_| mixed && r.chance(1, 2)).collect() }, alt_local: false })
+            .map(|_| UdpClient { via_socks: r.chance(1, 2), target: r.below(n_udp_targets), start_ms: r.below(200) as u64, sizes: (0..(1 + r.below(4))).map(|_| *r.pick(&[0usize, 1, 2, 3, 4, 13, 100, 1400, 9000])).collect(), gap_ms: if r.chance(1, 6) { *r.pick(&[10_500u64, 15_000, 19_500, 25_000]) } else { *r.pick(&[0u64, 10, 300, 900]) }, hops: (0..4).map(|_| r.below(2)).collect(), junk: (0..4).map(|_| if r.chance(1, 4) { 1 + r.below(4) as u8 } else { 0 }).collect(), v6: { let mixed = r.chance(1, 4); (0..4).map(|_| mixed && r.chance(1, 2)).collect() }, alt_local: false, burst: 0 })
             .collect();
         // a quarter of the runs with UDP remotes bind them to the wildcard address (no local host in
         // the remote specification); some clients then come in through the secondary local address
         let udp_wildcard = n_udp > 0 && r.chance(1, 4);
         let mut udp: Vec<UdpClient> = udp;
+        // a tenth of the runs with UDP: one or two clients of UDP remotes whose target answers each
+        // request with a burst of fillers (more than the server's reply queue holds) and the real
+        // reply three seconds later
+        if n_udp > 0 && !faulty_udp && r.chance(1, 10) {
+            let n = 1 + r.below(2);
+            udp = (0..n).map(|_| UdpClient { via_socks: false, target: r.below(n_udp_targets), start_ms: 100, sizes: vec![4; 1 + r.below(2)], gap_ms: 0, hops: vec![], junk: vec![], v6: vec![], alt_local: false, burst: 70 + r.below(130) }).collect();
+            net.buf_cap = net.buf_cap.max(65_536);
+        }
         if udp_wildcard {
             for c in &mut udp {
                 c.alt_local = !c.via_socks && r.chance(1, 2);
@@ -298,7 +307,7 @@ fn c01() -> Check {
         engine: "syssim",
         level: "exploration",
         families: vec![Box::new(C01Family)],
-        required_probes: vec!["entry:TCP-port remote", "entry:Unix-socket remote", "entry:SOCKS4", "entry:SOCKS4a", "entry:SOCKS5/IPv4", "entry:SOCKS5/domain", "entry:SOCKS5/IPv6", "entry:HTTP CONNECT", "client-half-closed-first", "target-half-closed-first", "target-refused-or-closed-early", "client-closed-on-silent-target", "udp-via-socks5", "udp-via-remote", "udp-payload-under-4-bytes", "concurrent-udp-clients", "one-association-several-targets", "entry:HTTP CONNECT/IPv6 literal", "target-closed-without-reading-while-uploader-out-of-credit", "fault:unparseable-datagram-to-socks5-relay", "udp-client-idle-longer-than-the-prune-timeout"],
+        required_probes: vec!["entry:TCP-port remote", "entry:Unix-socket remote", "entry:SOCKS4", "entry:SOCKS4a", "entry:SOCKS5/IPv4", "entry:SOCKS5/domain", "entry:SOCKS5/IPv6", "entry:HTTP CONNECT", "client-half-closed-first", "target-half-closed-first", "target-refused-or-closed-early", "client-closed-on-silent-target", "udp-via-socks5", "udp-via-remote", "udp-payload-under-4-bytes", "concurrent-udp-clients", "one-association-several-targets", "entry:HTTP CONNECT/IPv6 literal", "target-closed-without-reading-while-uploader-out-of-credit", "fault:unparseable-datagram-to-socks5-relay", "udp-client-idle-longer-than-the-prune-timeout", "udp-reply-after-a-burst-beyond-the-server-queue", "client-closed-while-target-was-sending"],
         assumptions: vec!["UDP exchanges stay inside the prune window and below the datagram buffers, so a missing reply cannot be excused in fault-free configurations", "the SOCKS5 UDP reply header is only required to be well-formed per RFC 1928 and to carry the payload (the statement does not fix its address fields)", "TLS not simulated (ws://)"],
         real: vec!["penguin client: client_main_inner, handle_tcp/udp/socks/http, UDP client-id maps, bridges", "penguin server: run_listener, hyper serve_connection_with_upgrades, State service, handle_websocket, tcp_forwarder_on_channel, udp_forward_on", "tokio-tungstenite both sides", "penguin-mux + penguin-socks + hyper (CONNECT)"],
         stub: vec!["tokio::net (penguin-simnet)", "local clients (written against RFC 1928 / SOCKS4a / HTTP CONNECT)", "targets", "clock (paused), scheduler RNG (seeded)"],
@@ -476,7 +485,7 @@ fn c19() -> Check {
         engine: "syssim",
         level: "fault_enumeration",
         families: vec![Box::new(C19Family), Box::new(C19KaFamily), Box::new(BackoffFamily)],
-        required_probes: vec!["retry-checked", "stream-request-timeout-checked", "backoff-capped", "gave-up-after-max-retries", "non-retryable-failure", "established-connection-lost", "parked-local-connection-served", "request-in-flight-at-loss", "lost-by-keepalive-expiry", "fault:tcp-reset", "fault:tcp-refused", "fault:tcp-blackhole"],
+        required_probes: vec!["retry-checked", "stream-request-timeout-checked", "backoff-capped", "gave-up-after-max-retries", "non-retryable-failure", "established-connection-lost", "parked-local-connection-served", "request-in-flight-at-loss", "lost-by-keepalive-expiry", "udp-remote-served-after-reconnect", "udp-backlog-beyond-the-queue-while-down", "fault:tcp-reset", "fault:tcp-refused", "fault:tcp-blackhole"],
         assumptions: vec!["zero network latency in this family so that retry instants are exact; TLS is not simulated (ws://)", "the client's keepalive (family silent-peer only) is timed on tokio's paused clock through the guarded hook verif_hooks::SimInstant; production uses std::time::Instant"],
         real: vec!["penguin client: client_main_inner, retry loop + Backoff, ws_connect::handshake (timeout select), on_connected, get_send_stream_chan, handle_remote/tcp listener", "tokio-tungstenite client and server", "penguin server run_listener + hyper + forwarder (healthy phases)", "penguin-mux with the real tungstenite WebSocket"],
         stub: vec!["tokio::net (penguin-simnet: in-memory sockets, refusal, reset)", "the scripted server (one behaviour per attempt)", "clock (tokio paused)", "tokio scheduler RNG (seeded)"],
